@@ -54,6 +54,16 @@ def run(ctx):
     rep.rule("C12.R2", "homogeneity under stiffness scaling", 14)
     rep.rule("C12.R3", "tangent coverage of strain arguments", 8)
     rep.rule("C12.R4", "complementary-energy protocol", 2)
+    rep.rule("C12.R5", "dependence monotonicity (K13): forces read no datum the energy does not read, tangents none the forces do not read (live references vs constructor copies)", 12)
+    from .. import depmono, protocol
+    for cname_ in ("Simo1986", "Harsch2021"):
+        ci_ = ctx.model.cls(cname_)
+        v_ = protocol.ClassView(ctx, ci_)
+        for p_, d_ in (("potential", "B_n"), ("potential", "B_m"), ("B_n", "B_n_B_Gamma"), ("B_n", "B_n_B_Kappa"), ("B_m", "B_m_B_Gamma"), ("B_m", "B_m_B_Kappa")):
+            c_, f_ = v_.method(d_)
+            if f_ is None:
+                continue
+            depmono.check(rep, "C12.R5", v_, ci_.rel, cname_, p_, d_, lineno=f_.lineno)
     mod = ctx.repo.module(MM)
     laws = [n for n in mod.tree.body if isinstance(n, ast.ClassDef) and any(dotted(b) == "RodMaterialModel" for b in n.bases)]
     if len(laws) < 2:
@@ -172,6 +182,10 @@ MUTANTS = [
          old="        dG = B_Gamma - B_Gamma0\n        return self.C_n @ dG\n", new="        dG = B_Gamma - B_Gamma0\n        return dG\n", expect="C12.R2"),
     dict(id="c12-m7", what="Harsch2021.B_n_B_Gamma: identity term dropped the stretch ratio", file=MM,
          old="            (1 - lambda0_ / lambda_) * np.eye(3)", new="            (1 - lambda0_) * np.eye(3)", expect="C12.R1"),
+]
+MUTANTS += [
+    dict(id="c12-r5-seed", canary=True, what="[seeded by sub-agent] Simo1986.B_n / B_m scale with the caller's live Ei / Fi arrays while energy and tangents use the copies C_n / C_m", file=MM,
+         edits=[(MM, "        dG = B_Gamma - B_Gamma0\n        return self.C_n @ dG\n", "        return self.Ei * (B_Gamma - B_Gamma0)\n")], expect="C12.R5"),
 ]
 NEUTRAL = [
     dict(id="c12-n1", canary=True, what="Simo1986.potential written with explicit transposes", file=MM,
